@@ -232,6 +232,18 @@ func (r *Report) finish(p *Prog, verifDir string, start time.Time, seed int64) i
 		r.Analysed["functions"] = len(p.Funcs)
 		r.Analysed["blocks"] = nb
 		r.Analysed["whole_program"] = p.Whole
+		// functions that the reference tree does not have and whose calls were expanded before the rules ran
+		norm := map[string]interface{}{"reference_functions": len(ReferenceFuncs())}
+		if len(p.NormInlined) > 0 {
+			norm["expanded_call_sites"] = p.NormInlined
+		}
+		if len(p.NormSkipped) > 0 {
+			norm["left_as_calls"] = p.NormSkipped
+		}
+		if p.NormNote != "" {
+			norm["note"] = p.NormNote
+		}
+		r.Analysed["normalisation"] = norm
 	}
 	ev := map[string]interface{}{
 		"property_id": r.Property,
